@@ -7,7 +7,7 @@
   listings, all log-file configurations and both run modes.  `Dir` is the explicit file-system
   state: names *and* contents, so `dir = d` is "byte for byte".
 -/
-import ASV.Proofs.Run
+import ASV.Proofs.Full
 namespace ASV.C20
 open ASV ASV.WriteSafety
 
@@ -469,6 +469,122 @@ theorem refused_run_touches_only_its_log (r : RunIn) (wf : (effective r.call).1.
     (afterLogging_wf _ wf) h
   simp [this]
 
+/-! ## `run_antismash` under every option it reads -/
+
+/-- **a refused output directory is untouched, whatever the options**: for every combination of
+    `--profiling`, `--debug`, `--verbose`, `--list-plugins`, `--check-prereqs`, satisfied or failing
+    prerequisites, valid or invalid options, enabled modules or none — if the directory (as logging
+    left it) holds a foreign entry and the run is fresh, the directory stays exactly what logging left,
+    and after logging's set-up no event touches a file: no profiling results, no results file, nothing -/
+theorem refused_run_touches_only_its_log_any_options (o : RunOpts) (r : RunIn) (wf : (effective r.call).1.WF = true)
+    (h : specAccepts (afterLogging (effective r.call).1) = false) :
+    (runFull o r).out.target = (afterLogging (effective r.call).1).target ∧
+    ∃ tail, (runFull o r).out.trace =
+        (setupLogging (logPlace (effective r.call).1) (effective r.call).1.target).2 ++ tail ∧
+      tail.any Ev.touchesFiles = false := by
+  cases he : stopsEarly o with
+  | true => rw [runFull_early o r he]; exact ⟨rfl, [], by simp, rfl⟩
+  | false => rw [runFull_refused o r wf he h]; exact ⟨rfl, [.logErr], rfl, by simp [Ev.touchesFiles]⟩
+
+/-- the exact shape of a refused run that got as far as the directory test, for every option set -/
+theorem refused_run_any_options (o : RunOpts) (r : RunIn) (wf : (effective r.call).1.WF = true)
+    (he : stopsEarly o = false) (h : specAccepts (afterLogging (effective r.call).1) = false) :
+    runFull o r =
+      ⟨⟨(setupLogging (logPlace (effective r.call).1) (effective r.call).1.target).2 ++ [.logErr],
+        some inputError, (afterLogging (effective r.call).1).target⟩, none⟩ :=
+  runFull_refused o r wf he h
+
+/-- the early exits (`--list-plugins`, `--check-prereqs`, failing prerequisites, invalid options, no
+    module enabled) never reach the output directory: logging's set-up is all that happens -/
+theorem early_exit_touches_only_its_log (o : RunOpts) (r : RunIn) (he : stopsEarly o = true) :
+    (runFull o r).out.trace = (setupLogging (logPlace (effective r.call).1) (effective r.call).1.target).2 ∧
+    (runFull o r).out.target = (setupLogging (logPlace (effective r.call).1) (effective r.call).1.target).1 := by
+  rw [runFull_early o r he]; exact ⟨rfl, rfl⟩
+
+/-- profiling results are written only by a run that completed: `--profiling` was given, no early
+    exit, the directory was accepted, every conversion succeeded, the return code is 0, and the
+    profiling events are the very last ones — after the results file, `annotate_records` and
+    `write_outputs` -/
+theorem profiling_only_after_complete_run (o : RunOpts) (r : RunIn) (wf : (effective r.call).1.WF = true)
+    (ev : Ev) (hev : ev ∈ (runFull o r).out.trace) (hp : ev.isProfiling = true) :
+    o.profile = true ∧ stopsEarly o = false ∧ specAccepts (afterLogging (effective r.call).1) = true ∧
+      r.results.hasFault = false ∧ (runFull o r).out.err = none ∧ (runFull o r).code = some 0 ∧
+      ∃ before, (runFull o r).out.trace =
+        before ++ [.outputsWritten, .openW profBinName, .write profBinName, .openW profTxtName, .write profTxtName] := by
+  have hspec := full_meets_spec o r wf
+  have hsetup : ∀ x ∈ (setupLogging (logPlace (effective r.call).1) (effective r.call).1.target).2,
+      x.isProfiling = false := by
+    intro x hx
+    unfold setupLogging at hx
+    split at hx <;> (try split at hx) <;> simp at hx <;> (try rcases hx with rfl | rfl) <;>
+      (try subst hx) <;> simp [Ev.isProfiling]
+  cases he : stopsEarly o with
+  | true =>
+    rw [runFull_early o r he] at hev
+    rw [hsetup ev hev] at hp; cases hp
+  | false =>
+    cases ha : specAccepts (afterLogging (effective r.call).1) with
+    | false =>
+      rw [runFull_refused o r wf he ha] at hev
+      rcases List.mem_append.1 hev with h1 | h1
+      · rw [hsetup ev h1] at hp; cases hp
+      · simp only [List.mem_singleton] at h1; subst h1; simp [Ev.isProfiling] at hp
+    | true =>
+      cases hf : r.results.hasFault with
+      | true =>
+        -- the executable spec says: no profiling event on this path
+        obtain ⟨e, hx⟩ := runFull_fault o r wf he ha hf
+        simp only [specFull, he, ha, hf, Bool.not_true, Bool.and_false, Bool.false_eq_true, if_false,
+          Bool.and_eq_true, Bool.not_eq_true', List.any_eq_false] at hspec
+        have hdrop := hspec.2.1.1
+        rw [hx] at hev hdrop
+        simp only [List.append_assoc] at hev hdrop
+        rw [List.drop_left'] at hdrop
+        · rcases List.mem_append.1 hev with h1 | h1
+          · rw [hsetup ev h1] at hp; cases hp
+          · have := hdrop ev h1
+            simp [hp] at this
+        · rfl
+      | false =>
+        have hx := runFull_clean o r wf he ha hf
+        simp only [] at hx
+        cases hprof : o.profile with
+        | false =>
+          rw [hx, hprof] at hev
+          simp only [Bool.false_eq_true, if_false] at hev
+          obtain ⟨hj1, hj2⟩ := jsonName_not_profiling r
+          have hall := pipeline_prefix_events ⟨afterLogging (effective r.call).1, r.results, r.jsonName⟩
+            (afterLogging_wf _ wf) ha _
+            (fun ev hev => Or.inl (convertRecords_trace 0 r.results.records r.results.results ev hev))
+          rcases List.mem_append.1 hev with h1 | h1
+          · rw [hsetup ev h1] at hp; cases hp
+          · have hassoc : (prepareOutputDir (afterLogging (effective r.call).1)).trace ++ Ev.prepared ::
+                (convertRecords 0 r.results.records r.results.results).trace ++
+                [Ev.openW r.jsonName, Ev.write r.jsonName, Ev.annotated, Ev.outputsWritten] =
+                ((prepareOutputDir (afterLogging (effective r.call).1)).trace ++ Ev.prepared ::
+                (convertRecords 0 r.results.records r.results.results).trace) ++
+                [Ev.openW r.jsonName, Ev.write r.jsonName, Ev.annotated, Ev.outputsWritten] := by simp
+            rw [hassoc] at h1
+            rcases List.mem_append.1 h1 with h2 | h2
+            · have := hall ev h2
+              rw [not_profiling_of_not_file ev ⟨this.2.2.1, this.2.2.2⟩] at hp; cases hp
+            · simp only [List.mem_cons, List.not_mem_nil, or_false] at h2
+              rcases h2 with rfl | rfl | rfl | rfl <;> simp [Ev.isProfiling, hj1, hj2] at hp
+        | true =>
+          refine ⟨rfl, rfl, rfl, rfl, ?_, ?_, ?_⟩
+          · rw [hx, hprof]; rfl
+          · rw [hx, hprof]; rfl
+          · rw [hx, hprof]
+            exact ⟨(setupLogging (logPlace (effective r.call).1) (effective r.call).1.target).2 ++
+              ((prepareOutputDir (afterLogging (effective r.call).1)).trace ++ Ev.prepared ::
+                (convertRecords 0 r.results.records r.results.results).trace ++
+                [Ev.openW r.jsonName, Ev.write r.jsonName, Ev.annotated]), by simp [List.append_assoc]⟩
+
+/-- the executable spec of the whole run holds of the model for every option set -/
+theorem run_antismash_any_options_meets_spec (o : RunOpts) (r : RunIn) (wf : (effective r.call).1.WF = true) :
+    specFull o r (runFull o r) = true :=
+  full_meets_spec o r wf
+
 /-! ## non-vacuity: concrete runs on which the interesting branches fire -/
 
 /-- two records, two modules each; the existing target holds old bytes, a bystander file exists -/
@@ -532,6 +648,19 @@ example : runAntismash (exRun .absent "/w/out/logs/run.log") =
 example : runAntismash (exRun (.dir [⟨"run", false, [.raw "x"]⟩]) "/w/out/run.log") =
     ⟨[.logErr], some "AntismashInputError", .dir [⟨"run", false, [.raw "x"]⟩, ⟨"run.log", false, [logText]⟩]⟩ := by
   decide
+/-- `--profiling` on a refused directory that even holds a file called `profiling_results`: only the
+    log grows; on a completed run the two profiling files are the last thing written -/
+def exProf : RunOpts := ⟨false, false, true, true, true, true, false, false⟩
+example : stopsEarly exProf = false := by decide
+example : runFull exProf (exRun (.dir [⟨"profiling_results", false, [.raw "mine"]⟩]) "/w/out/run.log") =
+    ⟨⟨[.logErr], some "AntismashInputError",
+      .dir [⟨"profiling_results", false, [.raw "mine"]⟩, ⟨"run.log", false, [logText]⟩]⟩, none⟩ := by decide
+example : (runFull exProf (exRun .absent "/w/out/run.log")).out.trace =
+    [.mkdir, .prepared, .recConv 0, .modConv 0 0, .openW "g.json", .write "g.json", .annotated, .outputsWritten,
+     .openW "profiling_results.bin", .write "profiling_results.bin", .openW "profiling_results",
+     .write "profiling_results"] := by decide
+example : runFull { exProf with listPlugins := true } (exRun .absent "/w/elsewhere.log") =
+    ⟨⟨[], none, .absent⟩, some 0⟩ := by decide
 /-- orjson's integer range is a fault boundary -/
 example : (PyVal.int 18446744073709551615).faulty = false ∧ (PyVal.int 18446744073709551616).faulty = true := by
   decide
